@@ -22,7 +22,7 @@
     deep-compares host and pattern before/after every call (TESTED_NOT_PROVED). *)
 From Coq Require Import List NArith Bool Arith Permutation SetoidList Relations.
 From SK Require Import lib.LGraph lib.Mono model.C06_Model lib.C06_Spec
-  proof.C06_All proof.C06_Comp proof.C06_Comps proof.C06_CompSem proof.C06_CompNoDup proof.C06_Main.
+  proof.C06_All proof.C06_Comp proof.C06_Comps proof.C06_CompSem proof.C06_CompNoDup proof.C06_Prefilter proof.C06_Main.
 Import ListNotations.
 
 (** ** 0. What the specification predicates say, written out *)
@@ -179,3 +179,24 @@ Theorem C06_prefilter_only_empties : forall (enum : list N -> list N -> list map
   find enum c H P = find enum (Cfg (c_strat c) (c_maxr c) (c_thr c) (c_strict c) false) H P.
 Proof. exact prefilter_only_empties. Qed.
 Print Assumptions C06_prefilter_only_empties.
+
+(** when the pre-filter says "skip" ([_quick_pre_filter] returns True), either there is
+    provably no monomorphism at all (so the emptied result is the exact one), or the
+    documented estimate guard fired: the product of the per-node candidate counts (host
+    nodes with matching labels and at least the pattern node's degree) over a prefix of
+    the pattern nodes exceeds 10^4 x threshold *)
+Theorem C06_prefilter_sound : forall (H P : graph) (thr : N),
+  LGraph.wf P -> quick_pre_filter H P thr = true ->
+  (forall m, ~ is_mono H P m) \/
+  (exists pre suf, node_ids P = pre ++ suf /\
+     (thr * 10000 <
+      fold_left (fun e p => e * lenN (filter (fun h => nm (lab H h) (lab P p) && (degree P p <=? degree H h)) (node_ids H)))
+                pre 1)%N).
+Proof. exact prefilter_sound. Qed.
+Print Assumptions C06_prefilter_sound.
+
+(** the first flag of every compared observable is [wfb H && wfb P]; it implies the input
+    premises ([gwf], [LGraph.wf]) of the theorems above *)
+Theorem C06_input_premise_monitor : forall g : graph, wfb g = true -> LGraph.wf g /\ gwf g.
+Proof. exact wfb_spec. Qed.
+Print Assumptions C06_input_premise_monitor.
